@@ -414,3 +414,80 @@ Example ex_deferred_enable :
   mf_run [OpTick 1; OpTick 2; OpTick 3; OpTick 4] s0 = mkmf 5 5 8 /\
   mf_run [OpDisable fw_MF_TASK_BCCH_NORM; OpTick 1] s0 = mkmf 0 4 4.
 Proof. vm_compute. repeat split; reflexivity. Qed.
+
+(* ------------------------------------------------------------------ trxcon: channel number -> channel combination (l1sched_chan_nr2pchan_config) *)
+
+Lemma sweep_resolver : forallb (fun c => trx_chan_nr2pchan c =? nth (Z.to_nat c) tx_resolve (-1)) (range 0 256) = true.
+Proof. vm_compute. reflexivity. Qed.
+
+Lemma sweep_resolve_rows : forallb (fun r => forallb (fun tn => chk_resolve r tn) (range 0 8)) c11_rows = true.
+Proof. vm_compute. reflexivity. Qed.
+
+Lemma resolver_is_real : forall c, 0 <= c < 256 -> trx_chan_nr2pchan c = nth (Z.to_nat c) tx_resolve (-1).
+Proof. intros c Hc. apply Z.eqb_eq. exact (forallb_range _ _ _ sweep_resolver c Hc). Qed.
+
+Lemma tnrule_eqb_eq a b : tnrule_eqb a b = true -> a = b.
+Proof. destruct a, b; try discriminate; reflexivity. Qed.
+Lemma mode_eqb_eq a b : mode_eqb a b = true -> a = b.
+Proof. destruct a, b; try discriminate; reflexivity. Qed.
+Lemma optz_eqb_eq a b : optz_eqb a b = true -> a = b.
+Proof. destruct a as [x|], b as [y|]; cbn [optz_eqb]; try discriminate; [intros H; apply Z.eqb_eq in H; subst; reflexivity | reflexivity]. Qed.
+
+(* the firmware's channel number of a dedicated row resolves to a combination under which the table has the same task / channel / SACCH /
+   timeslots / mode; BCCH and CCCH channel numbers do not resolve *)
+Lemma chan_nr_resolves : forall r tn, In r c11_rows -> 0 <= tn < 8 ->
+  let cfg := trx_chan_nr2pchan (fw_task_chan_nr (r_task r) tn) in
+  (row_dedicated r = true ->
+     exists r', In r' c11_rows /\ r_cfg r' = cfg /\ r_task r' = r_task r /\ r_lchan r' = r_lchan r /\ r_sacch r' = r_sacch r /\
+                r_tn r' = r_tn r /\ r_mode r' = r_mode r) /\
+  (row_dedicated r = false -> cfg = tx_GSM_PCHAN_NONE).
+Proof.
+  intros r tn Hr Htn cfg.
+  pose proof (forallb_In _ _ sweep_resolve_rows r Hr) as H1. cbv beta in H1.
+  pose proof (forallb_range _ _ _ H1 tn Htn) as H. cbv beta in H. clear H1.
+  unfold chk_resolve in H. fold cfg in H. split; intros D; rewrite D in H.
+  - apply existsb_exists in H as [r' [Hin H]]. apply andb_prop in H as [S Hc]. apply Z.eqb_eq in Hc.
+    unfold same_chan in S. apply andb_prop in S as [S S5]. apply andb_prop in S as [S S4]. apply andb_prop in S as [S S3].
+    apply andb_prop in S as [S1 S2]. apply Z.eqb_eq in S1, S2. apply optz_eqb_eq in S3. apply tnrule_eqb_eq in S4. apply mode_eqb_eq in S5.
+    exists r'. repeat split; auto.
+  - apply Z.eqb_eq. exact H.
+Qed.
+
+(* composed with the agreement theorems: in the layout trxcon selects for the resolved combination the firmware's block starts of the
+   row's task are the layout's burst-0 frames of the row's channel *)
+Lemma dch_est_block_starts : forall r tn cur,
+  In r c11_rows -> row_dedicated r = true -> r_mode r <> Tch -> 0 <= tn < 8 -> tn_ok (r_tn r) tn = true -> 0 <= cur < 2715648 ->
+  exists r' L, In r' c11_rows /\ r_cfg r' = trx_chan_nr2pchan (fw_task_chan_nr (r_task r) tn) /\ row_layout r' tn = Some L /\
+    let fn := (cur + 2) mod 2715648 in
+    fw_fires (r_task r) K_NB_DL false cur = trx_first L DL (r_lchan r) fn /\
+    fw_fires (r_task r) K_NB_DL true cur = trx_first_opt L DL (r_sacch r) fn /\
+    (r_mode r = Block ->
+       fw_fires (r_task r) K_NB_UL false cur = trx_first L UL (r_lchan r) fn /\
+       fw_fires (r_task r) K_NB_UL true cur = trx_first_opt L UL (r_sacch r) fn) /\
+    (r_mode r = BlockDL ->
+       fw_fires (r_task r) K_NB_UL false cur = false /\ fw_fires (r_task r) K_NB_UL true cur = false).
+Proof.
+  intros r tn cur Hr Hd Hm Htn Hok Hcur.
+  destruct (chan_nr_resolves r tn Hr Htn) as [H _]. destruct (H Hd) as [r' [Hin [Ec [Et [El [Es [En Em]]]]]]].
+  destruct (block_starts_agree r' tn cur Hin ltac:(rewrite Em; exact Hm) Htn ltac:(rewrite En; exact Hok) Hcur) as [L [HL HB]].
+  exists r', L. split; [exact Hin|]. split; [exact Ec|]. split; [exact HL|].
+  rewrite Et, El, Es, Em in HB. exact HB.
+Qed.
+
+Lemma dch_est_tch_frames : forall r tn cur,
+  In r c11_rows -> row_dedicated r = true -> r_mode r = Tch -> 0 <= tn < 8 -> tn_ok (r_tn r) tn = true -> 0 <= cur < 2715648 ->
+  exists r' L, In r' c11_rows /\ r_cfg r' = trx_chan_nr2pchan (fw_task_chan_nr (r_task r) tn) /\ row_layout r' tn = Some L /\
+    let fn := (cur + 2) mod 2715648 in
+    fw_fires (r_task r) K_TCH false cur = trx_owns L DL (r_lchan r) fn /\
+    fw_fires (r_task r) K_TCH false cur = trx_owns L UL (r_lchan r) fn /\
+    fw_fires (r_task r) K_TCH_A true cur = trx_owns_opt L DL (r_sacch r) fn /\
+    fw_fires (r_task r) K_TCH_A true cur = trx_owns_opt L UL (r_sacch r) fn /\
+    fw_fires (r_task r) K_TCH_D false cur = trx_owns_opt L DL (other_subchan (r_lchan r)) fn /\
+    fw_fires (r_task r) K_TCH_D false cur = trx_owns_opt L UL (other_subchan (r_lchan r)) fn.
+Proof.
+  intros r tn cur Hr Hd Hm Htn Hok Hcur.
+  destruct (chan_nr_resolves r tn Hr Htn) as [H _]. destruct (H Hd) as [r' [Hin [Ec [Et [El [Es [En Em]]]]]]].
+  destruct (tch_frames_agree r' tn cur Hin ltac:(rewrite Em; exact Hm) Htn ltac:(rewrite En; exact Hok) Hcur) as [L [HL HB]].
+  exists r', L. split; [exact Hin|]. split; [exact Ec|]. split; [exact HL|].
+  rewrite Et, El, Es in HB. exact HB.
+Qed.
